@@ -101,6 +101,9 @@ func (p *polling) onPollRequest(ctx *types.HttpContext) {
 
 	ctx.Once("close", onClose)
 
+	if verifhook.Enabled {
+		verifhook.Point("polling.onPollRequest.beforePublish", p)
+	}
 	// published only now: a writer goroutine that is still around from the previous
 	// cycle (a close packet racing with a data batch) may pick the request up at once
 	p.req.Store(ctx)
@@ -140,6 +143,9 @@ func (p *polling) onDataRequest(ctx *types.HttpContext) {
 		return
 	}
 
+	if verifhook.Enabled {
+		verifhook.Point("polling.onDataRequest.beforePublish", p)
+	}
 	p.dataCtx.Store(ctx)
 
 	var cleanup types.Callable
